@@ -72,6 +72,7 @@ def run(run):
     cases = [make_case(run.rng) for _ in range(n)]
     c04.run_cases(run, cases, "sel")
     check_twins(run, run.rng, run.tier == "quick")
+    check_invoke_off(run, run.rng, run.tier == "quick")
     idc = [identity_case(run.rng) for _ in range(200 if run.tier == "quick" else 4000)]
     res = c04.run_cases(run, idc, "selid", use_oracle=False)
     for c, r in zip(idc, res):
@@ -144,6 +145,55 @@ def check_twins(run, rng, quick):
         elif strip(ra.get("calls")) != strip(rb.get("calls")):
             run.property_failure("c13:display-twin-changes-hook-calls",
                                  "hook calls %r vs %r" % (ra.get("calls"), rb.get("calls")), a)
+
+
+def check_invoke_off(run, rng, quick):
+    """expand_invoke=False: every #invoke call, wherever it is, comes back as written with its arguments expanded; all
+    other calls expand as usual - also when the same template is called again later on the page."""
+    LIB = [["I1", "<{{#invoke:m|f|{{{1|}}}}}>", False],
+           ["I2", "[{{i1|{{{1|}}}}}/{{#invoke:m|g}}]", False],
+           ["I3", "({{{1|}}})", False],
+           ["I4", "{{#if:{{{1|}}}|{{#invoke:m|h|{{{1}}}}}|none}}", False]]
+    words = ["x", "y", "zz", "Q"]
+
+    def exp(name, arg):
+        if name == "i1":
+            return "<{{#invoke:m|f|%s}}>" % arg
+        if name == "i2":
+            return "[%s/{{#invoke:m|g}}]" % exp("i1", arg)
+        if name == "i3":
+            return "(%s)" % arg
+        return "{{#invoke:m|h|%s}}" % arg if arg else "none"
+    cases = []
+    for _ in range(60 if quick else 1500):
+        parts, want = [], []
+        for _ in range(rng.randint(1, 7)):
+            r = rng.random()
+            if r < 0.15:
+                w = rng.choice(words)
+                parts.append("{{#invoke:m|top|%s}}" % w)
+                want.append("{{#invoke:m|top|%s}}" % w)
+            elif r < 0.3:
+                # an #invoke in the argument of an ordinary template
+                w = rng.choice(words)
+                parts.append("{{i3|{{#invoke:m|a|%s}}}}" % w)
+                want.append("({{#invoke:m|a|%s}})" % w)
+            else:
+                name, arg = rng.choice(["i1", "i2", "i3", "i4"]), rng.choice(words + [""])
+                parts.append("{{%s|%s}}" % (name, arg))
+                want.append(exp(name, arg))
+        sep = rng.choice([" ", "", " and "])
+        cases.append(({"lib": LIB, "page": sep.join(parts), "opts": {"invoke": False}, "title": "Tt"},
+                      sep.join(want)))
+    res = lib.run_impl("expandlib", [c for c, _ in cases], shards=lib.NCPU)
+    for (c, want), r in zip(cases, res):
+        run.count(["invoke-off", c["page"], c["opts"]], c["page"].count("{{") >= 2, "invoke-off")
+        if r.get("outcome") != "ok":
+            run.property_failure("c13:invoke-off:%s:%s" % (r.get("outcome"), r.get("exc", "")), "expand raised: %r" % (r,), c)
+        elif r["out"] != want:
+            run.property_failure("c13:invoke-off:output", "expand_invoke=False: %r gave %r, expected %r" % (c["page"], r["out"], want), c)
+        elif not r.get("stack_ok", True):
+            run.property_failure("c13:invoke-off:stack", "expand_invoke=False: the expansion path is not restored after %r" % c["page"], c)
 
 
 def replay(data):
